@@ -130,6 +130,117 @@ theorem kind_examples (opt : DiffOpt) (k : Kind) (base probe : Arr) (hp : probe.
             restoration := none, model := none, restorationFirst := true } k (some base) [] probe).kind = k := by
   simp [call, resultKind, stageList, cleaningFilter, runStages, Stage.pure, StageFn.eval, Arr.ndim, diff, hp]
 
+/-- **The stock reductions** (`MonochromaticReduction`): `gray` weighs the channels in the order R, G, B with
+0.299 / 0.587 / 0.114 — a neutral pixel keeps its value, a pure red signal gives 0.299 and a pure blue one 0.114
+(the order matters); every named reduction maps the zero signal to zero (hypothesis of `baseline_zero`). -/
+theorem reduction_semantics (r g b v : Rat) :
+    grayOf [r, g, b] = 299 / 1000 * r + 587 / 1000 * g + 114 / 1000 * b ∧ grayOf [v, v, v] = v ∧
+    grayOf [1, 0, 0] = 299 / 1000 ∧ grayOf [0, 0, 1] = 114 / 1000 ∧
+    (∀ f ∈ [StageFn.gray, .negKey, .chan 0, .chan 1, .chan 2, .chanAdd 0 1],
+      ZeroPreserving (some (Stage.pure f.eval))) := by
+  refine ⟨(by simp [grayOf, listGetD]), (by simp only [grayOf, listGetD, List.getElem?_cons_zero, List.getElem?_cons_succ, Option.getD_some]; linarith),
+    (by simp [grayOf, listGetD]), (by simp [grayOf, listGetD]), ?_⟩
+  intro f hf s hs a ha p hp x hx
+  cases hs
+  simp only [List.mem_cons, List.not_mem_nil, or_false] at hf
+  have hz : ∀ q ∈ a.px, ∀ k, listGetD q k 0 = 0 := by
+    intro q hq k
+    simp only [listGetD]
+    cases hk : q[k]? with
+    | none => rfl
+    | some y => simpa using ha q hq y (List.mem_of_getElem? hk)
+  rcases hf with rfl | rfl | rfl | rfl | rfl | rfl
+  all_goals (
+    simp only [Stage.pure, StageFn.eval, List.mem_map] at hp
+    obtain ⟨q, hq, rfl⟩ := hp
+    simp only [List.mem_singleton] at hx
+    subst hx)
+  · simp [grayOf, hz q hq]
+  · have hq0 : ∀ y ∈ q, y = 0 := ha q hq
+    have hfold : ∀ (l : List Rat) (m : Rat), (∀ y ∈ l, y = 1) → m = 1 → l.foldl (fun m x => if x ≤ m then x else m) m = 1 := by
+      intro l
+      induction l with
+      | nil => intro m _ hm; simpa using hm
+      | cons y l ih =>
+        intro m hl hm
+        simp only [List.foldl_cons]
+        apply ih _ (fun z hz' => hl z (by simp [hz']))
+        rw [hl y (by simp), hm]; simp
+    rw [hfold]
+    · simp
+    · intro y hy
+      simp only [List.mem_map] at hy
+      obtain ⟨z, hz', rfl⟩ := hy
+      rw [hq0 z hz']; simp
+    · cases q with
+      | nil => simp
+      | cons z _ => simp [hq0 z (by simp)]
+  · simp [hz q hq]
+  · simp [hz q hq]
+  · simp [hz q hq]
+  · simp [hz q hq]
+
+/-- **No wrap-around for integer images** (`uint8`: bits = 8, `uint16`: bits = 16). The code promotes both images
+with `img_as(float)` (value / (2^bits − 1)) before `_subtract_background`; then, for every difference option and all
+pixel values of the type, the difference is exactly the (clipped / absolute / plain) *integer* difference divided by
+2^bits − 1 — it lies in [−1, 1], and in [0, 1] for the clipped and absolute options. (Without promotion numpy would
+compute `(p − b) mod 2^bits`: `wrapSub`.) -/
+theorem diff_no_wrap (bits : Nat) (hb : 0 < bits) (base probe : List Nat)
+    (hbase : ∀ b ∈ base, b < 2 ^ bits) (hprobe : ∀ p ∈ probe, p < 2 ^ bits) (o : DiffOpt) :
+    diffPromoted bits o base probe =
+      List.zipWith (fun (p b : Nat) => o.val (p : Rat) (b : Rat) / ((2 ^ bits - 1 : Nat) : Rat)) probe base ∧
+    ∀ v ∈ diffPromoted bits o base probe, -1 ≤ v ∧ v ≤ 1 ∧ (o ≠ .plain → 0 ≤ v) := by
+  constructor
+  · unfold diffPromoted
+    induction probe generalizing base with
+    | nil => simp
+    | cons p ps ih =>
+      cases base with
+      | nil => simp
+      | cons b bs =>
+        simp only [List.zipWith_cons_cons]
+        rw [(val_promote bits hb p b (hprobe p (by simp)) (hbase b (by simp)) o).1,
+          ih bs (fun x hx => hbase x (by simp [hx])) (fun x hx => hprobe x (by simp [hx]))]
+  · intro v hv
+    obtain ⟨p, hp, b, hbm, rfl⟩ := mem_zipWith' _ _ _ _ hv
+    exact (val_promote bits hb p b (hprobe p hp) (hbase b hbm) o).2
+
+/-- a wrapped difference looks nothing like the promoted one: 3 − 5 on uint8 is 254, the promoted positive part is 0 -/
+example : wrapSub 8 3 5 = 254 ∧ DiffOpt.positive.val (promote 8 3) (promote 8 5) = 0 ∧
+    DiffOpt.plain.val (promote 8 3) (promote 8 5) = -2 / 255 := by decide +kernel
+
+/-- **Cleaning-filter accumulation**: with extra baselines `e :: extras` the threshold is the running maximum,
+started at 0, of their reduced differences with the baseline; every entry is non-negative, dominates the
+corresponding entry of every extra baseline's signal, and is attained (0 or the entry of one of them). -/
+theorem cleaning_filter_is_running_max (c : Config) (base e : Arr) (extras : List Arr) :
+    let signals := (e :: extras).map fun b => (applyOpt c.reduction (diff c.opt base b)).px.map (·.headD 0)
+    cleaningFilter c base (e :: extras) = some (accumulate base.px.length signals) ∧
+    ∀ (i : Nat) (t : Rat), (accumulate base.px.length signals)[i]? = some t →
+      0 ≤ t ∧ (∀ s ∈ signals, ∀ x : Rat, s[i]? = some x → x ≤ t) ∧ (t = 0 ∨ ∃ s ∈ signals, s[i]? = some t) := by
+  intro signals
+  refine ⟨cleaningFilter_eq_accumulate c base e extras, fun i t ht => ⟨accumulate_nonneg _ _ i t ht,
+    fun s hs x hx => accumulate_ge _ _ s hs i t x ht hx, ?_⟩⟩
+  rcases foldl_stepMax_attained signals _ i t ht with h | h
+  · left
+    rw [List.getElem?_replicate] at h
+    split at h
+    · cases h; rfl
+    · contradiction
+  · exact Or.inr h
+
+/-- hence every extra baseline is itself cleaned to zero: wherever the threshold and its reduced signal are defined,
+`clip(signal − threshold, 0)` vanishes (the structural noise the filter was learnt from is removed). -/
+theorem extra_baseline_cleaned_zero (c : Config) (base e : Arr) (extras : List Arr) (b : Arr) (hb : b ∈ e :: extras)
+    (i : Nat) (t x : Rat)
+    (ht : (accumulate base.px.length ((e :: extras).map fun b => (applyOpt c.reduction (diff c.opt base b)).px.map (·.headD 0)))[i]? = some t)
+    (hx : ((applyOpt c.reduction (diff c.opt base b)).px.map (·.headD 0))[i]? = some x) :
+    Pipeline.posPart (x - t) = 0 := by
+  have hle := accumulate_ge _ _ _ (List.mem_map.mpr ⟨b, hb, rfl⟩) i t x ht hx
+  unfold Pipeline.posPart
+  split_ifs with h
+  · linarith
+  · rfl
+
 /-! ### non-vacuity -/
 
 def rgb : Arr := { scalar := false, px := [[1, 2, 3], [0, 4, 1]] }
